@@ -350,6 +350,20 @@ func emitLean(a *analysis, dir string) {
 		fmt.Fprintf(&b, "  (%s, %s, %v, %v, %v, %s)%s\n", q(w.class), q(w.fn), w.token, w.ctor, w.hasToken, q(w.at), comma(i, len(was)))
 	}
 	b.WriteString("]\n\n")
+	b.WriteString("/-- blocking waits of the repository protocol (taking the token, wg.Wait of a wait group with a token):\n    (kind, class waited for, mutex classes held, thread root, function, position) -/\ndef repoWaits : List (String × String × List String × String × String × String) := [\n")
+	rws := []repoWait{}
+	for w := range a.repoWaits {
+		rws = append(rws, w)
+	}
+	sort.Slice(rws, func(i, j int) bool { return fmt.Sprint(rws[i]) < fmt.Sprint(rws[j]) })
+	for i, w := range rws {
+		hs := []string{}
+		if w.held != "" {
+			hs = strings.Split(w.held, ",")
+		}
+		fmt.Fprintf(&b, "  (%s, %s, [%s], %s, %s, %s)%s\n", q(w.kind), q(w.class), joinMap(hs, q), q(w.root), q(w.fn), q(w.at), comma(i, len(rws)))
+	}
+	b.WriteString("]\n\n")
 	b.WriteString("/-- where the repository token (wgBlock) is taken: (function, the take is an arm of a select that also waits for ctx.Done()) -/\ndef tokenTakes : List (String × Bool) := [")
 	tts := []string{}
 	for t := range a.tokenTakes {
